@@ -36,6 +36,9 @@ pub fn configs(tier: Tier, judge: u32, liveness: bool) -> Vec<OutCfg> {
             let mut kinds = vec![SK::Q1, SK::Q1Loop(2), SK::Q2Rel];
             if role == Role::Client {
                 kinds.push(SK::Sub);
+                if tier == Tier::Thorough && cap == 1 {
+                    kinds.push(SK::Unsub);
+                }
             }
             if liveness {
                 kinds.push(SK::Ready);
@@ -98,6 +101,25 @@ pub fn configs(tier: Tier, judge: u32, liveness: bool) -> Vec<OutCfg> {
                 }
             }
         }
+        // send limit 4 (thorough): one more sender than the window
+        if tier == Tier::Thorough {
+            for senders in [vec![SK::Q1; 5], vec![SK::Q1, SK::Q1, SK::Q1Loop(2), SK::Q2Rel, SK::Q1], vec![SK::Q2Rel, SK::Q2Rel, SK::Q1, SK::Q1, SK::Q1Loop(2)]] {
+                v.push(OutCfg {
+                    ep: ep_for(EpCfg::new(ver, role), 4, false),
+                    cap: 4,
+                    senders,
+                    cancels: if liveness { 1 } else { 0 },
+                    batch: true,
+                    bp: 0,
+                    peer: PeerMode::Correct,
+                    judge,
+                    prologue: 0,
+                    peer_max_packet: 0,
+                    inbound: 0,
+                    may_close: false,
+                });
+            }
+        }
         // streamed QoS 1 publishes occupy a window slot like any other publish
         for (cap, senders) in [(1u16, vec![SK::Stream { qos: 1, size: 6, plan: 1 }, SK::Q1]), (1, vec![SK::Q1, SK::Stream { qos: 1, size: 6, plan: 1 }, SK::Q1]), (2, vec![SK::Stream { qos: 1, size: 6, plan: 1 }, SK::Q1, SK::Q1Loop(2)])] {
             v.push(OutCfg {
@@ -154,7 +176,7 @@ pub fn run(tier: Tier) -> i32 {
         ck.explore::<Out>("outbound", i, c, &ecfg);
     }
     ck.rule = format!(
-        "real sink + peer; per role (v3/v5 x server/client) and send limit, every multiset of cap+1 (quick) / cap+1..cap+2 (thorough) application tasks over {{send_at_least_once, two back-to-back send_at_least_once, send_exactly_once+release, (client) subscribe}}; events Start(j), PeerAck (oldest, correct type), PeerAckBatch, Cancel(j), window close/open; all orders at quiescence + up to {} injections while tasks are runnable; invariant after every poll and event: (QoS>0 PUBLISH received by peer) - (PUBACK/PUBCOMP sent by peer) <= limit. distinct_nontrivial = distinct final observations of executions in which a sender was parked on the window",
+        "real sink + peer; per role (v3/v5 x server/client) and send limit 1..2 (quick) / 1..4 (thorough; limit 4 with three fixed sender sets), every multiset of cap+1 (quick) / cap+1..cap+2 (thorough) application tasks over {{send_at_least_once, two back-to-back send_at_least_once, send_exactly_once+release, (client) subscribe}}; events Start(j), PeerAck (oldest, correct type), PeerAckBatch, Cancel(j), window close/open; all orders at quiescence + up to {} injections while tasks are runnable; invariant after every poll and event: (QoS>0 PUBLISH received by peer) - (PUBACK/PUBCOMP sent by peer) <= limit. distinct_nontrivial = distinct final observations of executions in which a sender was parked on the window",
         ecfg.max_dev
     );
     ck.assumptions = vec![
